@@ -75,30 +75,40 @@ pub fn gen_requests(rng: &mut Rng, n: u64, out: &mut Out) -> Vec<String> {
 // ---------------------------------------------------------------------------------------------------------
 // end-to-end leg: the same model (an index over "::"-paths) against `set_breakpoint_at_fn` on real binaries.
 //   C17 newbin <prog>        model: a fresh "::" index;  implementation: a debugger on progs/<prog> (not started)
-//   C17 insert <path> <i>    the i-th function of the program (path = demangled name split at top-level `::`,
-//                            generic arguments dropped), taken from `nm -C` — independent of the debugger
-//   C17 get <template>       implementation: indices of the functions in which `break <template>` put a breakpoint
+//   C17 insertfn <name> <i>  the i-th function of the program, `name` = its demangled name as `nm -C` prints it (independent
+//                            of the debugger); the model cuts it into components with its `split_path`
+//   C17 break <template>     implementation: indices of the functions in which `break <template>` put a breakpoint;
+//                            model: `search_functions` (template cut by `split_path`, looked up by components)
+//   C17 fnpath <text>        (pure leg) `NamespaceHierarchy::from_mangled(text)` on a text that is not a mangled name, so
+//                            the demangler hands it through: namespace parts + subroutine name vs the model's `split_path`
 pub const BIN_PROGS: &[&str] = &["c17_names", "c17_names_v0"];
 
-/// split a demangled Rust path at top-level `::` (angle brackets nest), drop generic arguments (`::<..>`),
-/// drop a legacy hash component, unwrap `<T>` (inherent impl in v0 style)
-pub fn path_comps(name: &str) -> Vec<String> {
-    let mut comps = vec![]; let mut cur = String::new(); let mut depth = 0i32;
-    let b: Vec<char> = name.chars().collect();
-    let mut i = 0;
-    while i < b.len() {
-        let c = b[i];
-        if c == '<' { depth += 1; } else if c == '>' { depth -= 1; }
-        if depth == 0 && c == ':' && i + 1 < b.len() && b[i + 1] == ':' { comps.push(std::mem::take(&mut cur)); i += 2; continue; }
-        cur.push(c); i += 1;
+/// cut `s` at the occurrences of `delim` that are outside angle brackets (`->` is not a closing bracket)
+fn cut_outside_brackets(s: &str, delim: &str) -> Vec<String> {
+    let ch: Vec<char> = s.chars().collect();
+    let dl: Vec<char> = delim.chars().collect();
+    let mut out = vec![]; let mut cur = String::new(); let mut depth = 0i64; let mut i = 0;
+    while i < ch.len() {
+        let arrow = ch[i] == '>' && i > 0 && ch[i - 1] == '-';
+        if ch[i] == '<' { depth += 1; } else if ch[i] == '>' && !arrow && depth > 0 { depth -= 1; }
+        else if depth == 0 && ch[i] != '>' && ch[i..].starts_with(&dl) { out.push(std::mem::take(&mut cur)); i += dl.len(); continue; }
+        cur.push(ch[i]); i += 1;
     }
-    comps.push(cur);
+    out.push(cur);
+    out
+}
+
+/// the path components a demangled Rust name (or a `break` template) denotes, written from the statement of the
+/// property, not from the debugger's code: cut at top-level `::`; generic arguments (`::<..>`) are not components;
+/// a leading `<Type>` (inherent impl, v0 style) stands for the path of the type; `<T as Trait>` and legacy `<impl T>`
+/// are components of their own; a legacy hash component is dropped
+pub fn path_comps(name: &str) -> Vec<String> {
     let mut out = vec![];
-    for c in comps {
-        if c.starts_with('<') && c.ends_with('>') && !c.contains(" as ") && out.is_empty() {
-            // `<krate::Type>` -> krate, Type
-            out.extend(path_comps(&c[1..c.len() - 1]));
-        } else if c.starts_with('<') && !out.is_empty() { /* generic arguments */ }
+    for (i, c) in cut_outside_brackets(name, "::").into_iter().enumerate() {
+        let bracketed = c.len() >= 2 && c.starts_with('<') && c.ends_with('>');
+        if bracketed && i == 0 && cut_outside_brackets(&c[1..c.len() - 1], " as ").len() == 1 {
+            out.extend(cut_outside_brackets(&c[1..c.len() - 1], "::"));
+        } else if bracketed && i > 0 && !c.starts_with("<impl ") { /* generic arguments */ }
         else if c.len() == 17 && c.starts_with('h') && c[1..].chars().all(|x| x.is_ascii_hexdigit()) { /* legacy hash */ }
         else { out.push(c); }
     }
@@ -126,30 +136,37 @@ pub fn gen_bin_requests(rng: &mut Rng, out: &mut Out) -> Vec<String> {
     for prog in BIN_PROGS {
         let fns = user_functions(prog);
         req.push(format!("C17 newbin {prog}"));
-        // the model is fed the components AS THE IMPLEMENTATION COMPUTES THEM (`from_mangled`: the demangled name
-        // split on every `::`, the legacy hash dropped); the oracle uses the bracket-aware components (`path_comps`)
+        // the model is fed the demangled NAME (as `nm -C` prints it) and cuts it with its own `split_path`; the oracle uses
+        // the components of `path_comps`
         for (i, (_, _, _, raw)) in fns.iter().enumerate() {
-            let naive: Vec<String> = raw.split("::").map(String::from)
-                .filter(|c| !(c.len() == 17 && c.starts_with('h') && c[1..].chars().all(|x| x.is_ascii_hexdigit()))).collect();
-            req.push(format!("C17 insert {} {}", enc_list(&naive, |s| enc_str(s)), i + 1));
+            req.push(format!("C17 insertfn {} {}", enc_str(raw), i + 1));
         }
         let mut tpls: Vec<String> = vec![];
-        for (_, _, comps, _) in &fns {
-            // (components written with angle brackets — `<T as Trait>` — are not path templates a user can type)
-            if comps.iter().any(|c| c.contains('<')) { continue; }
+        let mut misses: Vec<String> = vec![];
+        for (_, _, comps, raw) in &fns {
+            // every suffix of the path, and the name as printed (generic arguments, `<Type>::m`, `<T as Trait>::m`)
             for k in 1..=comps.len() { tpls.push(comps[comps.len() - k..].join("::")); }
+            tpls.push(raw.clone());
             // near misses: partial component, prefix, wrong module
             let full = comps.join("::");
-            if full.len() > 3 { let c = rng.range(1, full.len() as u64 - 1) as usize; if full.is_char_boundary(c) { tpls.push(full[c..].to_string()); } }
-            if comps.len() > 1 { tpls.push(comps[..comps.len() - 1].join("::")); tpls.push(format!("nosuch::{}", comps[comps.len() - 1])); }
+            if full.len() > 3 { let c = rng.range(1, full.len() as u64 - 1) as usize; if full.is_char_boundary(c) { misses.push(full[c..].to_string()); } }
+            if comps.len() > 1 { misses.push(comps[..comps.len() - 1].join("::")); misses.push(format!("nosuch::{}", comps[comps.len() - 1])); }
+            misses.push(format!("{}::<u8>", comps[comps.len() - 1]));
         }
         tpls.sort(); tpls.dedup();
+        misses.sort(); misses.dedup();
         // every suffix template is kept; near misses are sampled (each query costs a DWARF-wide search)
-        while tpls.len() > 28 { let k = rng.below(tpls.len() as u64) as usize; tpls.remove(k); }
-        for t in tpls { req.push(format!("C17 get {}", enc_str(&t))); out.count("bin.get", 1); }
+        while misses.len() > 8 { let k = rng.below(misses.len() as u64) as usize; misses.remove(k); }
+        tpls.extend(misses);
+        for t in tpls { req.push(format!("C17 break {}", enc_str(&t))); out.count("bin.break", 1); }
         out.count(&format!("bin.{prog}"), 1);
     }
     req
+}
+
+/// the suffix specification over components
+fn spec_comps(log: &[(Vec<String>, u64)], comps: &[String]) -> Vec<u64> {
+    log.iter().filter(|(p, _)| !p.is_empty() && p.len() >= comps.len() && p[p.len() - comps.len()..] == comps[..]).map(|(_, v)| *v).collect()
 }
 
 fn bin_session(lines: &[String], emit: &mut dyn FnMut(String)) {
@@ -168,13 +185,13 @@ fn bin_session(lines: &[String], emit: &mut dyn FnMut(String)) {
     for line in &lines[1..] {
         let t: Vec<&str> = line.split(' ').collect();
         match t.as_slice() {
-            ["C17", "insert", _p, v] => {
-                // oracle side: the bracket-aware components of the v-th function (from `nm -C`), not the request's
+            ["C17", "insertfn", _p, v] => {
+                // oracle side: the components of the v-th function (from `nm -C`) by `path_comps`, not the request's
                 let v: u64 = v.parse().unwrap();
                 if let Some(f) = fns.get(v as usize - 1) { log.push((f.2.clone(), v)); }
                 emit("ok".into());
             }
-            ["C17", "get", n] => {
+            ["C17", "break", n] => {
                 let tpl = dec_str(n);
                 let mut got: Vec<u64> = vec![];
                 let mut stray = 0;
@@ -186,11 +203,12 @@ fn bin_session(lines: &[String], emit: &mut dyn FnMut(String)) {
                 }
                 let _ = dbg.remove_breakpoint_at_fn(&tpl);
                 got.sort();
-                let want = spec_get(&log, "::", &tpl);
+                let want = spec_comps(&log, &path_comps(&tpl));
                 if got != want || stray > 0 {
                     // functions the two sides disagree on
                     let differ: Vec<u64> = want.iter().filter(|i| !got.contains(i)).chain(got.iter().filter(|i| !want.contains(i))).copied().collect();
-                    // v0 demangled names carry generic arguments / `<Type>` segments: `from_mangled` splits them on every `::`
+                    // v0 demangled names carry generic arguments / `<Type>` segments (repaired defect: `from_mangled` used to
+                    // split them on every `::`; the key stays so that a regression is reported under it)
                     let v0_brackets = prog.ends_with("_v0") && stray == 0 && !differ.is_empty()
                         && differ.iter().all(|i| fns[*i as usize - 1].3.contains('<') && !got.contains(i));
                     let key = if v0_brackets { "v0-mangled-function-path-split-inside-angle-brackets" } else { "function-template-selects-wrong-set" };
@@ -203,6 +221,62 @@ fn bin_session(lines: &[String], emit: &mut dyn FnMut(String)) {
             _ => emit("bad-op".into()),
         }
     }
+}
+
+
+// ---------------------------------------------------------------------------------------------------------
+// function-path leg: texts shaped like demangled names (both schemes) and broken ones
+const IDENTS: &[&str] = &["a", "b", "krate", "alpha", "f", "zq_x", "Type", "m", "{closure#0}", "{{closure}}", "{impl#1}", "λ", "x-y", ""];
+
+fn gen_type(rng: &mut Rng, depth: u32) -> String {
+    let path = |rng: &mut Rng| (0..rng.range(1, 3)).map(|_| rng.pick(IDENTS).to_string()).collect::<Vec<_>>().join("::");
+    if depth == 0 { return path(rng); }
+    match rng.below(9) {
+        0 | 1 => path(rng),
+        2 => format!("{}<{}>", path(rng), gen_type(rng, depth - 1)),
+        3 => format!("{}<{}, {}>", path(rng), gen_type(rng, depth - 1), gen_type(rng, depth - 1)),
+        4 => format!("fn({}) -> {}", gen_type(rng, depth - 1), gen_type(rng, depth - 1)),
+        5 => format!("<{} as {}>::{}", gen_type(rng, depth - 1), path(rng), rng.pick(IDENTS)),
+        6 => format!("&mut [{}; 3]", gen_type(rng, depth - 1)),
+        7 => format!("dyn {}<Assoc = {}> + 'a", path(rng), gen_type(rng, depth - 1)),
+        _ => format!("({}, {})", gen_type(rng, depth - 1), gen_type(rng, depth - 1)),
+    }
+}
+
+pub fn gen_fn_text(rng: &mut Rng, out: &mut Out) -> String {
+    let mut segs: Vec<String> = vec![];
+    let form = rng.below(10);
+    match form {
+        0..=3 => {}
+        4 | 5 => { out.count("fnpath.inherent_impl", 1); segs.push(format!("<{}>", gen_type(rng, 2))); }
+        6 | 7 => { out.count("fnpath.trait_impl", 1); segs.push(format!("<{} as {}>", gen_type(rng, 2), gen_type(rng, 1))); }
+        8 => { out.count("fnpath.legacy_impl_segment", 1); segs.push(rng.pick(IDENTS).to_string()); segs.push(format!("<impl {}>", gen_type(rng, 1))); }
+        _ => {}
+    }
+    for _ in 0..rng.range(if segs.is_empty() { 1 } else { 0 }, 4) {
+        segs.push(rng.pick(IDENTS).to_string());
+        if rng.chance(1, 3) { out.count("fnpath.generic_args", 1); segs.push(format!("<{}>", (0..rng.range(1, 2)).map(|_| gen_type(rng, 2)).collect::<Vec<_>>().join(", "))); }
+    }
+    let mut t = segs.join("::");
+    if form == 9 {
+        // broken texts: unbalanced brackets, stray arrows, delimiters at the ends
+        out.count("fnpath.broken", 1);
+        for _ in 0..rng.range(1, 3) {
+            let ins = *rng.pick(&["<", ">", "->", "::", " as ", "-", ":", "<impl ", ">>"]);
+            let mut c = rng.below(t.len() as u64 + 1) as usize;
+            while !t.is_char_boundary(c) { c += 1; }
+            t.insert_str(c, ins);
+        }
+    }
+    // never a text the demangler would take for a mangled name
+    if t.starts_with("_ZN") || t.starts_with("ZN") || t.starts_with("_R") || t.starts_with("R") || t.starts_with("__") || t.contains(".llvm.") { t.insert(0, 'q'); }
+    t
+}
+
+pub fn gen_fnpath_requests(rng: &mut Rng, n: u64, out: &mut Out) -> Vec<String> {
+    let mut req = vec!["C17 new x3a3a".to_string()];
+    for _ in 0..n { let t = gen_fn_text(rng, out); req.push(format!("C17 fnpath {}", enc_str(&t))); out.count("fnpath", 1); }
+    req
 }
 
 pub fn exec(req: &[String], out: &mut Out) {
@@ -283,6 +357,20 @@ fn exec_index(req: &[String], out: &mut Out) {
                 out.sample(json!({"delim": delim, "inserts": log.len(), "needle": needle, "got": got}));
                 enc_list(&got, |v| v.to_string())
             }
+            ["C17", "fnpath", t] => {
+                let text = dec_str(t);
+                let (ns, name) = bugstalker::debugger::verif::NamespaceHierarchy::from_mangled(&text);
+                let mut got = ns.as_parts(); got.push(name);
+                out.oracle_evals += 1;
+                let want = path_comps(&text);
+                if got != want {
+                    let v0 = text.contains('<');
+                    out.oracle_fail(if v0 { "v0-mangled-function-path-split-inside-angle-brackets" } else { "function-path-components-wrong" },
+                        &format!("from_mangled({text:?}) = {got:?}, the path denotes the components {want:?}"),
+                        json!({"text": text, "got": got, "want": want}));
+                }
+                enc_list(&got, |c| enc_str(c))
+            }
             _ => "bad-op".into(),
         };
         out.pair(line.clone(), ans);
@@ -297,6 +385,7 @@ pub fn run(args: &[String]) {
         None => {
             let mut rng = Rng::new(a.seed);
             let mut r = gen_requests(&mut rng, a.n, &mut out);
+            r.extend(gen_fnpath_requests(&mut rng, (a.n / 10).max(50), &mut out));
             r.extend(gen_bin_requests(&mut rng, &mut out));
             r.extend(sym::gen_sym_requests(&mut rng, a.n, &mut out));
             r
